@@ -363,7 +363,8 @@ def run_channel(res, n, d, fc, sc, calls, nq, stats, label):
     import digital_rf
     rng = res.rng
     top = common.scratch_dir()
-    w = digital_rf.DigitalMetadataWriter(top, sc, fc, n, d, PREFIX)
+    nf = common.number_form
+    w = digital_rf.DigitalMetadataWriter(top, nf(rng, sc), nf(rng, fc), nf(rng, n), nf(rng, d), PREFIX)
     spec, sstat = spec_of(calls)
     cfgi = {"n": n, "d": d, "fc": fc, "sc": sc, "calls": calls}
     expv, istat = {}, []
@@ -598,7 +599,8 @@ def replay(res, rp):
     i = rp["input"]
     n, d, fc, sc, calls = i["n"], i["d"], i["fc"], i["sc"], i["calls"]
     top = common.scratch_dir()
-    w = digital_rf.DigitalMetadataWriter(top, sc, fc, n, d, PREFIX)
+    nf = common.number_form
+    w = digital_rf.DigitalMetadataWriter(top, nf(rng, sc), nf(rng, fc), nf(rng, n), nf(rng, d), PREFIX)
     spec, sstat = spec_of(calls)
     expv = {}
     print("config n=%d d=%d file_cadence=%d subdir_cadence=%d" % (n, d, fc, sc))
